@@ -175,13 +175,36 @@ func EqInts(a, b []int) bool {
 // node results compare as sets of distinct nodes (C01); otherwise sequences
 // must be in document order without duplicates.
 func Matches(o Outcome, v ref.Value, setOnly bool) bool {
+	if setOnly {
+		return MatchesMode(o, v, "set")
+	}
+	return MatchesMode(o, v, "seq")
+}
+
+// SortedBag returns the nodes sorted, duplicates kept.
+func SortedBag(ns []int) []int {
+	out := append([]int{}, ns...)
+	for i := 1; i < len(out); i++ {
+		for j := i; j > 0 && out[j-1] > out[j]; j-- {
+			out[j-1], out[j] = out[j], out[j-1]
+		}
+	}
+	return out
+}
+
+// MatchesMode: mode "set" ignores order and multiplicity, "bag" ignores order
+// only (every node exactly once), "seq" demands document order, no duplicates.
+func MatchesMode(o Outcome, v ref.Value, mode string) bool {
 	switch v.T {
 	case ref.TNodeSet:
 		if o.Kind != "nodes" {
 			return false
 		}
-		if setOnly {
+		switch mode {
+		case "set":
 			return EqInts(AsSet(o.Nodes), v.NS)
+		case "bag":
+			return EqInts(SortedBag(o.Nodes), v.NS)
 		}
 		return EqInts(o.Nodes, v.NS)
 	case ref.TBool:
